@@ -305,10 +305,19 @@ def rule_once(lm):
 def rule_escape(lm):
     prog = lm.prog
     obs = []
+    G = ('MutexGuard<', 'RwLockReadGuard<', 'RwLockWriteGuard<')
+    n_acq = 0
     for b in prog.bodies:
         sig = b.sig
-        if sig and ('MutexGuard<' in sig or 'RwLockReadGuard<' in sig or 'RwLockWriteGuard<' in sig):
-            obs.append(bad('ESCAPE', 'ESCAPE|sig|%s' % b.name, 'a lock guard appears in the signature of %s: guard liveness is no longer intraprocedural' % b.name, b.where()))
+        if sig and any(g in sig for g in G):
+            in_params = any(any(g in b.locals[k]['ty'] for g in G) for k in range(1, b.arg_count + 1))
+            in_ret = any(g in b.locals[0]['ty'] for g in G)
+            if in_ret and not in_params and not b.is_pub and not b.is_closure:
+                # a private acquisition helper (`fn entries(&self) -> MutexGuard<..>`): the guard is born in the caller
+                # at the call (GuardFlow keys on the destination's type), exactly like `lock().unwrap()` itself
+                n_acq += 1
+                continue
+            obs.append(bad('ESCAPE', 'ESCAPE|sig|%s' % b.name, 'a lock guard appears in the signature of %s (%s): guard liveness is no longer intraprocedural' % (b.name, 'parameter' if in_params else 'result of a public function'), b.where()))
     for s in prog.f.statics:
         if 'Guard<' in s['ty']:
             obs.append(bad('ESCAPE', 'ESCAPE|static|%s' % s['name'], 'static holds a lock guard', ''))
